@@ -302,6 +302,7 @@ func VH04a_resend() {
 	sock := vp.New("req")
 	verif.Assert(sock.SetOption(mangos.OptionRetryTime, retry) == nil, lab+"/set-retry")
 	side := vt.Listen(sock, "a")
+	vt.ChooseErrors() // lost connections report ErrClosed or the raw reset error
 	pipes := []*vt.Pipe{side.Peer("p0")}
 	if verif.Param("pipes", 1) > 1 {
 		pipes = append(pipes, side.Peer("p1"))
@@ -437,6 +438,7 @@ func VH03b_requeue() {
 	retry := time.Duration(verif.Param("retry_ms", 1000)) * time.Millisecond
 	sock.SetOption(mangos.OptionRetryTime, retry)
 	side := vt.Listen(sock, "a")
+	vt.ChooseErrors() // lost connections report ErrClosed or the raw reset error
 	p0 := side.Peer("p0")
 	pipes := []*vt.Pipe{p0}
 	useCtx := verif.Choice("ctx", 2) == 1
@@ -658,6 +660,7 @@ func VH04c_inflight() {
 	verif.Assume(verif.And(retry >= 1, retry <= time.Hour))
 	verif.Assert(sock.SetOption(mangos.OptionRetryTime, retry) == nil, lab+"/set-retry")
 	side := vt.Listen(sock, "a")
+	vt.ChooseErrors() // lost connections report ErrClosed or the raw reset error
 	bad := side.Peer("bad")
 	bad.SendMode = vt.SendHold
 	verif.Assert(sock.Send([]byte{1, 'A'}) == nil, lab+"/send")
@@ -1149,6 +1152,7 @@ func VH04e_burst() {
 	retry := time.Second
 	verif.Assert(sock.SetOption(mangos.OptionRetryTime, retry) == nil, lab+"/set-retry")
 	side := vt.Listen(sock, "a")
+	vt.ChooseErrors() // lost connections report ErrClosed or the raw reset error
 	pipes := []*vt.Pipe{side.Peer("p0"), side.Peer("p1")}
 	verif.Assert(sock.Send([]byte{'A', verif.Byte("payload")}) == nil, lab+"/send")
 	verif.Quiesce()
@@ -1274,6 +1278,7 @@ func VH04f_cycles() {
 	retry := time.Second
 	verif.Assert(sock.SetOption(mangos.OptionRetryTime, retry) == nil, lab+"/set-retry")
 	side := vt.Listen(sock, "a")
+	vt.ChooseErrors() // lost connections report ErrClosed or the raw reset error
 	pipes := []*vt.Pipe{side.Peer("p0"), side.Peer("p1")}
 	r := &rctx{name: "sock", sock: sock}
 	if verif.Choice("api", 2) == 1 {
@@ -1525,6 +1530,7 @@ func VH04g_many_peers() {
 	sock := vp.New("req")
 	verif.Assert(sock.SetOption(mangos.OptionRetryTime, time.Minute) == nil, lab+"/set-retry")
 	side := vt.Listen(sock, "a")
+	vt.ChooseErrors() // lost connections report ErrClosed or the raw reset error
 	var pipes []*vt.Pipe
 	for i := 0; i < P; i++ {
 		pipes = append(pipes, side.Peer("p"+string(rune('0'+i))))
